@@ -23,21 +23,21 @@ use vkit::{Args, Fnv, Reporter, Rng};
 use vmodel::setup::{self, Backend, Config};
 
 #[derive(Clone, Copy, Debug, PartialEq)]
-enum Which {
+pub(crate) enum Which {
     Identity,
     Account,
     Folder(VaultId),
 }
 
 impl Which {
-    fn name(&self) -> &'static str {
+    pub(crate) fn name(&self) -> &'static str {
         match self {
             Which::Identity => "identity",
             Which::Account => "account",
             Which::Folder(_) => "folder",
         }
     }
-    fn log_type(&self) -> EventLogType {
+    pub(crate) fn log_type(&self) -> EventLogType {
         match self {
             Which::Identity => EventLogType::Identity,
             Which::Account => EventLogType::Account,
@@ -46,10 +46,10 @@ impl Which {
     }
 }
 
-const ALPHABET: [&str; 3] = ["alpha", "beta", "gamma"];
+pub(crate) const ALPHABET: [&str; 3] = ["alpha", "beta", "gamma"];
 
 /// Rewind the log to `base` and append the events `seq` names; returns the leaves.
-async fn set_log<S: StorageEventLogs>(s: &S, which: Which, base: &CommitHash, seq: &[u8]) -> Result<Vec<[u8; 32]>, String> {
+pub(crate) async fn set_log<S: StorageEventLogs>(s: &S, which: Which, base: &CommitHash, seq: &[u8]) -> Result<Vec<[u8; 32]>, String> {
     macro_rules! go {
         ($log:expr, $mk:expr) => {{
             let log = $log.map_err(|e| e.to_string())?;
@@ -69,7 +69,7 @@ async fn set_log<S: StorageEventLogs>(s: &S, which: Which, base: &CommitHash, se
     }
 }
 
-async fn head<S: StorageEventLogs>(s: &S, which: Which) -> Result<CommitHash, String> {
+pub(crate) async fn head<S: StorageEventLogs>(s: &S, which: Which) -> Result<CommitHash, String> {
     macro_rules! go {
         ($log:expr) => {{
             let log = $log.map_err(|e| e.to_string())?;
@@ -94,7 +94,7 @@ fn seq_of(mut code: usize, len: usize) -> Vec<u8> {
 }
 
 /// All sequences of length 0..=max over the alphabet.
-fn all_seqs(max: usize) -> Vec<Vec<u8>> {
+pub(crate) fn all_seqs(max: usize) -> Vec<Vec<u8>> {
     let mut out = vec![];
     for len in 0..=max {
         for code in 0..3usize.pow(len as u32) {
@@ -155,8 +155,9 @@ pub async fn run(args: &Args, rep: &mut Reporter) {
                     k += 1;
                     continue;
                 }
-                if k % args.shards == args.shard {
-                    let limit = [32u16, 1, 2, 3][(k / args.shards) % 4];
+                let mix = (k as u64).wrapping_mul(0x9E37_79B9_7F4A_7C15) >> 20;
+                if (mix % args.shards as u64) as usize == args.shard {
+                    let limit = [32u16, 1, 2, 3][((mix / args.shards as u64) % 4) as usize];
                     cases.push((*which, a.clone(), b.clone(), limit));
                 }
                 k += 1;
